@@ -11,7 +11,7 @@ from harness.xser import S, V
 ID = "C20"
 REQUIRED_THEOREMS = ["raw_default", "raw_kept", "raw_falsy_examples", "value_copy", "packet_copy", "copy_idempotent"]
 RULE = ("requests `mkparam <cls> <value> <raw|->`, `copyparam ... <how>`, `copypkt <items> <data> <pos> <how>` with how in "
-        "{copy, deepcopy, pickle0..pickle5}, and `like <cls> <value> <raw|->` (a fixed table of ~60 operations — ==, !=, <, "
+        "{copy, deepcopy, pickle0..pickle5; for packets also their own .copy() method}, and `like <cls> <value> <raw|->` (a fixed table of ~60 operations — ==, !=, <, "
         "hash, bool, str/format, arithmetic, container membership, isinstance — applied to the parameter object and to the "
         "plain built-in); values of all five classes incl. 0, negative, huge, NaN, infinities, empty and non-ASCII strings "
         "and byte strings, falsy raw values; non-trivial = every request; distinct = distinct request line")
@@ -52,10 +52,13 @@ def generate(rng, tier):
             items.append([S(f"P{k}"), cls, V(v), V(v if r is None else r)])
         data = rng.randbytes(rng.randrange(0, 12))
         pos = rng.randrange(0, 8 * len(data) + 5)
-        yield f"copypkt {sx(items)} {hx(data)} {pos} {rng.choice(HOWS)}", "copy-packet"
+        # `method` = the packet's own `copy()` (it is a dict): also a copy of the whole packet
+        yield f"copypkt {sx(items)} {hx(data)} {pos} {rng.choice(HOWS + ['method'])}", "copy-packet"
 
 
 def do_copy(obj, how):
+    if how == "method":
+        return obj.copy()
     if how == "copy":
         return copy.copy(obj)
     if how == "deepcopy":
